@@ -110,6 +110,11 @@ func (env *Env) tr(e Expr) TV {
 		if id, ok := eng.typeConst(x.Name); ok {
 			return TV{T: id, S: "Int"}
 		}
+		if strings.HasPrefix(x.Name, "zero_") {
+			so := strings.TrimPrefix(x.Name, "zero_")
+			eng.sorts.extra[so] = true
+			return TV{T: x.Name, S: so}
+		}
 		env.fail("unknown identifier %q", x.Name)
 	case EUn:
 		switch x.Op {
@@ -422,7 +427,7 @@ func (env *Env) trCall(x ECall) TV {
 	case "string":
 		v := env.tr(args[0])
 		if v.S == "Slice" {
-			h := env.st.get(eng.regHeap("E.Int", "(Array Int (Array Int Int))"))
+			h := env.st.get(eng.byteHeap())
 			return TV{T: fmt.Sprintf("(bytes2str (select %s (s-arr %s)) (s-off %s) (s-len %s))", h, v.T, v.T, v.T), S: "Str"}
 		}
 		return v
@@ -451,6 +456,16 @@ func (env *Env) trCall(x ECall) TV {
 		v := env.tr(args[0])
 		so := args[1].(EStr).Val
 		return TV{T: fmt.Sprintf("(%s (i-val %s))", eng.unboxFn(so), v.T), S: so}
+	case "store":
+		a, k, v := env.tr(args[0]), env.tr(args[1]), env.tr(args[2])
+		return TV{T: fmt.Sprintf("(store %s %s %s)", a.T, k.T, v.T), S: a.S}
+	case "ret":
+		// ret("callee", n): the result of the n-th call to callee in this function
+		key := fmt.Sprintf("%s#%s", args[0].(EStr).Val, args[1].(EInt).Val)
+		if tv, ok := fc.topCtx().siteResults[key]; ok {
+			return tv
+		}
+		env.fail("ret(%s): no such call site seen before this point", key)
 	case "heapof":
 		// heapof("F.S_x.f") : the raw heap array in the current state
 		n := args[0].(EStr).Val
